@@ -311,6 +311,9 @@ type cmpCtx struct {
 	prev     *canvas.Paint // the paint of the previously painted item
 	prevRGB  [3]float64    // the colour the previous item was painted with
 	staleRun bool          // the colour cache defect has occurred earlier in this program
+	// PDF: an image call left the cached alpha different from the graphics state's (q … gs … Q) and no `gs`
+	// has re-synchronised them yet
+	alphaStaleByImage bool
 }
 
 func (x *cmpCtx) paint(it item, want canvas.Paint, what string) []disc {
@@ -330,6 +333,9 @@ func (x *cmpCtx) paint(it item, want canvas.Paint, what string) []disc {
 			q := ""
 			if !it.setPaint {
 				q = "-on-cached-paint"
+			}
+			if x.alphaStaleByImage {
+				q = ":stale-after-image-save-restore"
 			}
 			out = append(out, disc{x.backend + ":alpha:gradient-inherits-previous-alpha" + q, fmt.Sprintf("%s: gradient painted with alpha %.6g", what, it.alpha)})
 		}
@@ -369,6 +375,9 @@ func (x *cmpCtx) paint(it item, want canvas.Paint, what string) []disc {
 		q := ":paint-set-in-this-draw"
 		if !it.setPaint {
 			q = ":stale-on-cached-paint"
+		}
+		if x.alphaStaleByImage {
+			q = ":stale-after-image-save-restore"
 		}
 		out = append(out, disc{x.backend + ":alpha" + q, fmt.Sprintf("%s: alpha %.6g painted, %.6g expected", what, it.alpha, a)})
 	}
@@ -413,7 +422,7 @@ func (x *cmpCtx) compare(cl call, items []item) []disc {
 	s := cl.style
 	for _, it := range items {
 		if it.kind == "invalid" {
-			out = append(out, disc{x.backend + ":invalid:" + strings.ReplaceAll(it.why, " ", "-"), it.why})
+			out = append(out, invalidDisc(x.backend, it.why))
 		}
 	}
 	if 0 < len(out) {
@@ -544,23 +553,8 @@ func report(c *hc.Ctx, d disc, calls []call, grads []canvas.Gradient, idx int, c
 		"draw": idx, "output": string(chunk), "program": describe(calls[:idx+1], grads)})
 }
 
-func oracle(c *hc.Ctx, calls []call, grads []canvas.Gradient, rp, rs, rv *replay) {
-	// PDF
-	pin := newPDFInterp(func() map[string][2]float64 { return pdf.VerifC12ExtGState(rp.pdf) })
-	prefix := rp.all[:len(rp.all)-totalLen(rp.segs)]
-	pin.run(prefix) // the page's initial `cm`
-	xp := &cmpCtx{c: c, backend: "pdf", unit: 1, grads: grads, gradName: map[string]canvas.Gradient{}, colTol: 1e-6}
-	for i, cl := range calls {
-		if rp.panics[i] != "" {
-			report(c, disc{"pdf:panic", rp.panics[i]}, calls, grads, i, nil)
-			break
-		}
-		c.Evals++
-		for _, d := range xp.compare(cl, pin.run(rp.segs[i])) {
-			report(c, d, calls, grads, i, rp.segs[i])
-		}
-	}
-	checkPDFPatterns(c, rp, xp, calls, grads)
+func oracle(c *hc.Ctx, all []call, calls []call, grads []canvas.Gradient, rp, rs, rv *replay) {
+	oraclePDF(c, all, grads, rp)
 	// PostScript: the default user space unit is 1/72 inch; the program must say otherwise
 	sin := newPSInterp()
 	xs := &cmpCtx{c: c, backend: "ps", unit: 1, grads: grads, gradName: map[string]canvas.Gradient{}, colTol: 1.01 / 255, noAlpha: true}
@@ -629,10 +623,188 @@ func hasKindPrefix(ds []disc, p string) bool {
 	return false
 }
 
+// oraclePDF interprets the content stream page by page (a new page starts from the initial graphics state and
+// has its own resources) and judges after EVERY call (a) the painted items against the reference, (b) the
+// page writer's cached graphics state against the interpreter's actual graphics state, for every cached
+// parameter, (c) that every resource name used resolves in the page's resource dictionary.
+func oraclePDF(c *hc.Ctx, calls []call, grads []canvas.Gradient, rp *replay) {
+	page := 0
+	newInterp := func() *pdfInterp {
+		p := page
+		in := newPDFInterp(func() map[string][2]float64 { return rp.pages[p].ext })
+		in.hasPattern = func(name string) bool {
+			for _, q := range rp.pages[p].patterns {
+				if q.Name == name {
+					return true
+				}
+			}
+			return false
+		}
+		in.hasXObject = func(name string) bool {
+			for _, q := range rp.pages[p].xobjects {
+				if q == name {
+					return true
+				}
+			}
+			return false
+		}
+		return in
+	}
+	pin := newInterp()
+	pin.run(rp.prefix) // the page's initial `cm`
+	xp := &cmpCtx{c: c, backend: "pdf", unit: 1, grads: grads, gradName: map[string]canvas.Gradient{}, colTol: 1e-6}
+	for i, cl := range calls {
+		if rp.panics[i] != "" {
+			report(c, disc{"pdf:panic", rp.panics[i]}, calls, grads, i, nil)
+			break
+		}
+		c.Evals++
+		var ds []disc
+		switch cl.kind {
+		case kPage:
+			checkPDFPatterns(c, rp.pages[page], xp, calls, grads)
+			page = rp.pageOf[i]
+			pin = newInterp()
+			xp.gradName = map[string]canvas.Gradient{}
+			xp.alphaStaleByImage = false
+			for _, it := range pin.run(rp.segs[i]) {
+				ds = append(ds, invalidDisc("pdf", it.why))
+			}
+		case kImage:
+			ds = xp.compareImage(cl, pin.run(rp.segs[i]))
+		default:
+			ds = xp.compare(cl, pin.run(rp.segs[i]))
+		}
+		div := cacheDivergence(rp.cache[i], pin.gs, cl.kind == kImage)
+		for k := range div {
+			if div[k].kind == "pdf:cache-diverges:alpha" && xp.alphaStaleByImage {
+				div[k].kind = "pdf:cache-diverges:alpha:persisting-after-image"
+			}
+		}
+		for _, d := range div {
+			if strings.HasPrefix(d.kind, "pdf:cache-diverges:alpha") && cl.kind == kImage {
+				xp.alphaStaleByImage = true
+			}
+		}
+		if len(div) == 0 {
+			xp.alphaStaleByImage = false // cache and graphics state agree again
+		}
+		for _, d := range append(ds, div...) {
+			report(c, d, calls, grads, i, rp.segs[i])
+		}
+	}
+	checkPDFPatterns(c, rp.pages[page], xp, calls, grads)
+}
+
+func invalidDisc(backend, why string) disc {
+	if strings.HasPrefix(why, "undefined resource") {
+		return disc{backend + ":undefined-resource", why}
+	}
+	return disc{backend + ":invalid:" + strings.ReplaceAll(why, " ", "-"), why}
+}
+
+// cacheDivergence: "the cached value equals the interpreter's actual state" judged on the real writer, per
+// cached parameter.
+func cacheDivergence(cs pdf.VerifC12CacheState, g pdfGS, afterImage bool) []disc {
+	var out []disc
+	q := ""
+	if afterImage {
+		q = ":after-image"
+	}
+	add := func(field, desc string) {
+		out = append(out, disc{"pdf:cache-diverges:" + field + q, "after this call the page writer caches " + desc})
+	}
+	if !closeF(cs.Alpha, g.ca, 1e-6) || !closeF(cs.Alpha, g.CA, 1e-6) {
+		add("alpha", fmt.Sprintf("alpha %.6g but the graphics state has ca %.6g CA %.6g", cs.Alpha, g.ca, g.CA))
+	}
+	paint := func(p canvas.Paint, pv paintVal, field string) {
+		if p.IsGradient() {
+			if !pv.isGrad {
+				add(field, "a gradient but the graphics state has a device colour")
+			}
+			return
+		}
+		if p.IsColor() {
+			rgb, _ := unpremul(p.Color)
+			ok := !pv.isGrad
+			for k := 0; ok && k < 3; k++ {
+				ok = math.Abs(rgb[k]-pv.rgb[k]) <= 1e-6
+			}
+			if !ok {
+				add(field, fmt.Sprintf("colour %v but the graphics state has %v (pattern %v)", rgb, pv.rgb, pv.isGrad))
+			}
+		}
+	}
+	paint(cs.Fill, g.fill, "fill")
+	paint(cs.Stroke, g.stroke, "stroke")
+	if !closeF(cs.LineWidth, g.lw, 1e-7) {
+		add("linewidth", fmt.Sprintf("line width %.8g but the graphics state has %.8g", cs.LineWidth, g.lw))
+	}
+	if cs.LineCap != g.cap {
+		add("linecap", fmt.Sprintf("cap %d but the graphics state has %d", cs.LineCap, g.cap))
+	}
+	if cs.LineJoin != g.join {
+		add("linejoin", fmt.Sprintf("join %d but the graphics state has %d", cs.LineJoin, g.join))
+	}
+	if !closeF(cs.MiterLimit, g.ml, 1e-7) {
+		add("miterlimit", fmt.Sprintf("miter limit %.8g but the graphics state has %.8g", cs.MiterLimit, g.ml))
+	}
+	if n := len(cs.DashesPhase); 0 < n {
+		ok := n-1 == len(g.dash) && closeF(cs.DashesPhase[n-1], g.phase, 1e-7)
+		for k := 0; ok && k < n-1; k++ {
+			ok = closeF(cs.DashesPhase[k], g.dash[k], 1e-7)
+		}
+		if !ok {
+			add("dashes", fmt.Sprintf("dashes+phase %v but the graphics state has %v phase %.8g", cs.DashesPhase, g.dash, g.phase))
+		}
+	}
+	return out
+}
+
+// compareImage: RenderImage(img, m) paints the image once, opaque (the rasterizer draws it `Over` with the
+// image's own alpha), on the parallelogram m·[0,w]x[0,h].
+func (x *cmpCtx) compareImage(cl call, items []item) []disc {
+	var out []disc
+	for _, it := range items {
+		if it.kind == "invalid" {
+			out = append(out, invalidDisc(x.backend, it.why))
+		}
+	}
+	if 0 < len(out) {
+		return out
+	}
+	if len(items) != 1 || items[0].kind != "image" {
+		return []disc{{x.backend + ":order:image", fmt.Sprintf("%d painted items for an image call", len(items))}}
+	}
+	it := items[0]
+	if !closeF(it.alpha, 1, 1e-6) {
+		q := ""
+		if x.alphaStaleByImage {
+			q = ":stale-after-image-save-restore"
+		}
+		out = append(out, disc{x.backend + ":alpha:image" + q, fmt.Sprintf("image painted with alpha %.6g", it.alpha)})
+	}
+	sz := cl.img.Bounds().Size()
+	var b pb
+	for k, p := range [][2]float64{{0, 0}, {float64(sz.X), 0}, {float64(sz.X), float64(sz.Y)}, {0, float64(sz.Y)}} {
+		q := cl.m.Dot(canvas.Point{X: p[0], Y: p[1]})
+		if k == 0 {
+			b.moveTo(hcP(q))
+		} else {
+			b.lineTo(hcP(q))
+		}
+	}
+	b.close()
+	if d, _ := geomDiff(b.segs, it.segs, 3e-5*(1+extent(b.segs))); d != "" {
+		out = append(out, disc{x.backend + ":geometry:image", d})
+	}
+	return out
+}
+
 // checkPDFPatterns: shading coordinates are the gradient's millimetre coordinates in default page
 // space (points); colours of the end stops.
-func checkPDFPatterns(c *hc.Ctx, rp *replay, x *cmpCtx, calls []call, grads []canvas.Gradient) {
-	for _, p := range pdf.VerifC12Patterns(rp.pdf) {
+func checkPDFPatterns(c *hc.Ctx, pr pageRes, x *cmpCtx, calls []call, grads []canvas.Gradient) {
+	for _, p := range pr.patterns {
 		g, ok := x.gradName[p.Name]
 		if !ok {
 			continue
@@ -715,7 +887,7 @@ func probes(c *hc.Ctx) {
 		g.Add(1, canvas.Blue)
 		st := canvas.DefaultStyle
 		st.Fill = canvas.Paint{Gradient: g}
-		cl := call{canvas.Rectangle(10, 10), st, canvas.Identity}
+		cl := call{path: canvas.Rectangle(10, 10), style: st, m: canvas.Identity}
 		rp := replayPDF([]call{cl})
 		msg := hc.Try(func() { rp.pdf.Close() })
 		c.Evals++
@@ -731,7 +903,7 @@ func probes(c *hc.Ctx) {
 		st.Fill = canvas.Paint{}
 		st.Stroke = canvas.Paint{Color: canvas.Black}
 		st.DashOffset = -1
-		cl := call{canvas.Rectangle(10, 10), st, canvas.Identity}
+		cl := call{path: canvas.Rectangle(10, 10), style: st, m: canvas.Identity}
 		done := make(chan string, 1)
 		go func() { done <- hc.Try(func() { replayPDF([]call{cl}) }) }()
 		c.Evals++
